@@ -406,6 +406,33 @@ func runGrpcFlow(c *core.Ctx) {
 		"status.FromError is not applied to the handler's own error value (a part of the chain is inspected instead): wrappers around a status error are dropped and the visible code changes")
 	c.Check(getCode != nil && argIs(getCode, 0, herr), "server: extgrpc.GetGrpcCode(err)", srv.Pos(), "code taken from the handler's error", "the gRPC code is not computed from the handler's error")
 	c.Check(encode != nil && argIs(encode, 1, herr), "server: errors.EncodeError(ctx, err)", srv.Pos(), "the handler's error itself is encoded", "the encoded detail is not the handler's error itself")
+	// the status message is the error's own text
+	sx.EachInstr(srv, func(in ssa.Instruction) {
+		call, ok := in.(*ssa.Call)
+		if !ok || sx.Callee(call) == nil || sx.Callee(call).Name() != "New" || len(call.Call.Args) != 2 {
+			return
+		}
+		if pk := load.FnPkg(sx.Callee(call)); pk == nil || !strings.Contains(pk.Path(), "status") {
+			return
+		}
+		msg, isCall := call.Call.Args[1].(*ssa.Call)
+		ok2 := isCall && msg.Call.IsInvoke() && msg.Call.Method.Name() == "Error" && msg.Call.Value == herr
+		c.Check(ok2, "server: status.New(code, err.Error())", call.Pos(), "the status message is exactly the handler error's text", "the gRPC status message is not the handler error's Error() text itself (it is transformed first): the status can become unmarshalable or differ from the error")
+	})
+	// grpc/status.Code forwards to extgrpc.GetGrpcCode, nothing else
+	if codeFn := p.Func("grpc/status", "Code"); codeFn != nil {
+		okCode := true
+		nCalls := 0
+		sx.EachInstr(codeFn, func(in ssa.Instruction) {
+			if call, ok := in.(*ssa.Call); ok {
+				nCalls++
+				if f := sx.Callee(call); f == nil || f.Name() != "GetGrpcCode" || call.Call.Args[0] != ssa.Value(codeFn.Params[0]) {
+					okCode = false
+				}
+			}
+		})
+		c.Check(okCode && nCalls == 1 && len(codeFn.Blocks) == 1, "grpc/status.Code(err)", codeFn.Pos(), "exactly extgrpc.GetGrpcCode(err)", "status.Code no longer returns exactly the code attached with WrapWithGrpcCode (another source of codes takes precedence)")
+	}
 	// returns
 	for _, r := range sx.Returns(srv) {
 		lits := dominatingLits(r.Block())
